@@ -23,3 +23,9 @@ func (s *State) VerifSetRepository(repo gitstore.Storer) { s.repository = repo }
 func VerifNewVerifier(repo gitstore.Storer, name string, principals []tuf.Principal, threshold int) *SignatureVerifier {
 	return &SignatureVerifier{repository: repo, name: name, principals: principals, threshold: threshold}
 }
+
+// VerifNewExhaustiveVerifier builds the verifier FindVerifiersForPath puts in
+// front when global rules exist: it authenticates every principal it can.
+func VerifNewExhaustiveVerifier(repo gitstore.Storer, name string, principals []tuf.Principal) *SignatureVerifier {
+	return &SignatureVerifier{repository: repo, name: name, principals: principals, threshold: 1, verifyExhaustively: true}
+}
